@@ -394,6 +394,38 @@ def sibling_agreement(prog, cls, f):
                 for st in sts:
                     if not (isinstance(st, ast.AugAssign) and isinstance(st.op, ast.Add)):
                         out.append(F('bad', k, st, f'sibling kernel {k.name} writes `{p}` with something else than += '))
+        # selection conditions: a store conditioned on a per-batch aggregate (how many traces of the class the batch holds)
+        # in one sibling but not in the other makes the accumulated state depend on which kernel ran
+        agg = {}
+        for k in ks:
+            pm = astutil.parents(k.node)
+            defs = {}
+            for n_ in ast.walk(k.node):
+                if isinstance(n_, ast.Assign) and len(n_.targets) == 1 and isinstance(n_.targets[0], ast.Name):
+                    defs.setdefault(n_.targets[0].id, []).append(n_.value)
+
+            def aggregate(e, depth=0):
+                for c in ast.walk(e):
+                    if isinstance(c, ast.Call) and norm(c.func).split('.')[-1] in ('sum', 'count_nonzero', 'any', 'all', 'len', 'max', 'min', 'mean'):
+                        return True
+                    if isinstance(c, ast.Name) and depth < 3 and any(aggregate(v, depth + 1) for v in defs.get(c.id, [])):
+                        return True
+                return False
+            hits = []
+            for p_, sts in kernels.written_params(k).items():
+                for st in sts:
+                    for t, pol in astutil.guards_ext(st, pm, k.node):
+                        if aggregate(t):
+                            hits.append((p_, st, t))
+            agg[k.key] = hits
+        if any(agg.values()) and not all(agg.values()):
+            for k in ks:
+                for p_, st, t in agg[k.key]:
+                    other = [x.name for x in ks if not agg[x.key]]
+                    out.append(F('bad', k, st, f'{k.name} accumulates into `{p_}` only when the per-batch aggregate condition `{norm(t)[:50]}` allows it, its sibling '
+                                               f'{", ".join(other)} accumulates every trace: the state depends on which kernel the timings select (and on the batch split)'))
+        else:
+            out.append(F('ok', f, node, f'{" / ".join(k.name for k in ks)}: no store is conditioned on a per-batch aggregate in one sibling only'))
         if not calls:
             out.append(F('bad', f, node, f'dispatch variable `{var}` is never called'))
         # other direct calls of a candidate in the same function must pass the same arguments
